@@ -210,6 +210,19 @@ fn judge_all(cases: &[Case]) -> Result<(), String> {
     for (i, j) in alias {
         verdicts[i].errors = verdicts[j].errors.clone();
     }
+    // bindings requested as no_std compliant must not name the std crate (the judged crates are not `#![no_std]`, so
+    // rustc would not notice): the property allows rasn and lazy_static as the only dependencies of such bindings
+    for (i, c) in cases.iter().enumerate() {
+        if c.cfg.no_std {
+            if let (Some(g), Some(errs)) = (outcomes[i].ok_clean(), verdicts[i].errors.as_mut()) {
+                // (the text is a token stream: `impl std :: default :: Default for ..`)
+                let toks: Vec<&str> = g.split_whitespace().collect();
+                if let Some(p) = (0..toks.len().saturating_sub(2)).find(|p| toks[*p] == "std" && toks[*p + 1] == "::" && (*p == 0 || toks[*p - 1] != "::")) {
+                    errs.push(("NOSTD".to_string(), format!("no_std compliant bindings name the std crate: `std::{}`", toks[p + 2])));
+                }
+            }
+        }
+    }
     let mut map = results().lock().unwrap();
     for (c, v) in cases.iter().zip(verdicts.into_iter()) {
         map.insert(key_of(c), v);
